@@ -821,3 +821,41 @@ fn c15_rtcp_compound_roundtrip_rr_pli() {
     assert!(back.len() == 2 && back[0] == pkts[0] && back[1] == pkts[1]);
     core::mem::forget(back); core::mem::forget(pkts);
 }
+
+// ---------------------------------------------------------------- 5-bit count fields (RFC 3550 6.4.1 RC, 6.6 SC)
+fn zero_block(i: u32) -> ReportBlock {
+    ReportBlock { ssrc: i, fraction_lost: 0, packets_lost: 0, highest_sequence: 0, jitter: 0, last_sender_report: 0, delay_since_last_sender_report: 0 }
+}
+/// count-field law: whatever marshal emits for a receiver report, the 5-bit RC field equals the number
+/// of report blocks actually serialised (RFC 3550 6.4.2) — a report with more than 31 blocks must be
+/// rejected (or split), never emitted with a wrapped count
+fn rr_count_obligation<const NB: u32>() {
+    let mut blocks = Vec::new();
+    let mut i = 0u32; while i < NB { blocks.push(zero_block(i)); i += 1; }
+    let rr = ReceiverReport { sender_ssrc: kani::any(), report_blocks: blocks };
+    let pkts = [RtcpPacket::ReceiverReport(rr)];
+    if let Ok(bytes) = marshal_rtcp_packets(&pkts) {
+        assert!(bytes.len() >= 8 && (bytes.len() - 8) % 24 == 0);
+        assert!((bytes[0] & 0x1F) as usize == (bytes.len() - 8) / 24);
+        assert!(u16::from_be_bytes([bytes[2], bytes[3]]) as usize == bytes.len() / 4 - 1);
+    }
+    core::mem::forget(pkts);
+}
+#[kani::proof]
+#[kani::unwind(36)]
+fn c15_rr_count_field_31_blocks() { rr_count_obligation::<31>(); }
+#[kani::proof]
+#[kani::unwind(36)]
+fn c15_rr_count_field_32_blocks() { rr_count_obligation::<32>(); }
+/// same law for the source count of BYE (RFC 3550 6.6): 32 sources
+#[kani::proof]
+#[kani::unwind(36)]
+fn c15_bye_count_field_32_sources() {
+    let mut v = Vec::new();
+    let mut i = 0u32; while i < 32 { v.push(i); i += 1; }
+    let pkts = [RtcpPacket::Goodbye(Goodbye { sources: v, reason: None })];
+    if let Ok(bytes) = marshal_rtcp_packets(&pkts) {
+        assert!((bytes[0] & 0x1F) as usize == (bytes.len() - 4) / 4);
+    }
+    core::mem::forget(pkts);
+}
